@@ -28,7 +28,7 @@ ASSUMPTIONS = ["skill standard deviations are 0", "schedules are realised throug
 LEVEL_TEXT = ("Schedule search: the only real nondeterminism of the library (set iteration order) is put under the control of the "
               "seed and varied; results under different schedules, addresses, interpreters and call histories must be bit-identical.")
 LEVEL_NOTE = "Trusted: rank seam realises every order for <= 8 objects; dump covers every public log; sampling of schedules unless n<=5 in thorough."
-PROBES = ["mode_perm", "mode_plain", "mode_again", "mode_history", "schedules_compared", "same_step_zero_FF", "same_step_zero_SF",
+PROBES = ["mode_perm", "mode_plain", "mode_again", "mode_history", "mode_ids", "schedules_compared", "same_step_zero_FF", "same_step_zero_SF",
           "fresh_interpreter_compared", "history_default_args_call", "history_insert_absence", "global_state_checked"]
 
 
@@ -45,7 +45,9 @@ def gen(rng, tier):
     if rng.random() < 0.3:
         focus["density"] = 0.5
     spec = C.forward_spec(rng, tier, focus)
-    mode = G.wchoice(rng, [("perm", 6), ("plain", 1.5), ("again", 1.5), ("history", 1.5)])
+    mode = G.wchoice(rng, [("perm", 6), ("plain", 1.5), ("again", 1.5), ("history", 1.5), ("ids", 1.2)])
+    if mode == "ids" and any(t.get("fixw") is not None or t.get("fixf") is not None for t in spec["model"]["tasks"]):
+        mode = "perm"  # fixed-ID lists name resource IDs: not meaningful with default IDs
     spec["mode"] = mode
     n = len(spec["model"]["tasks"])
     if mode == "perm":
@@ -54,6 +56,8 @@ def gen(rng, tier):
         else:
             k = 5 if tier == "quick" else 8
             spec["perms"] = [G.gen_ranks(rng, spec["model"], "perm" if rng.random() < 0.85 else "wide") for _ in range(k)]
+    elif mode == "ids":
+        spec["id_seeds"] = [rng.randint(1, 1 << 30) for _ in range(3)]
     elif mode == "plain":
         spec["garbage"] = [rng.randint(1, 4000) for _ in range(rng.randint(1, 4))]
     elif mode == "again":
@@ -106,6 +110,17 @@ def reset_globals_old():
 def edge_tags(model):
     ks = sorted(set(G.KIND_NAME[k] for (_, _, k) in model["deps"]))
     return "+".join(ks) if ks else "nodep"
+
+
+def canon(obj, mapping):
+    """Rename IDs (dict keys and string values) according to mapping."""
+    if isinstance(obj, dict):
+        return {mapping.get(k, k): canon(v, mapping) for k, v in obj.items()}
+    if isinstance(obj, list):
+        return [canon(v, mapping) for v in obj]
+    if isinstance(obj, str):
+        return mapping.get(obj, obj)
+    return obj
 
 
 def one_run(spec, ranks, cfg=None, plain=False):
@@ -169,6 +184,31 @@ def run(spec):
                         % (spec.get("ranks"), r, sorted(attrs)[:6], diff[0], diff[1], diff[2]), None)
                 break
         res.count("schedules_compared", compared)
+    elif mode == "ids":
+        # workers and facilities get the library's default IDs (uuid4).  Two builds draw different IDs; after renaming the
+        # IDs by position the results must be identical (a result must not depend on what the random IDs happen to be)
+        dumps = []
+        for sd in spec.get("id_seeds", [1, 2]):
+            scen.setup_run(spec.get("seed", 0))
+            seams.UUID.reset(random_seed=sd)
+            b = B.build(m, spec.get("ranks"), default_resource_ids=True)
+            rec, out = scen.simulate(b.project, spec["cfg"], want_snap=False)
+            mapping = {}
+            for w, wid in zip(b.workers, [w_["id"] for tm in m["teams"] for w_ in tm["workers"]]):
+                mapping[w.ID] = wid
+            for f, fid in zip(b.facs, [f_["id"] for wp in m["wps"] for f_ in wp["facs"]]):
+                mapping[f.ID] = fid
+            d = canon(D.dump(b.project), mapping)
+            d["_outcome"] = [out.ok, out.exc_type, out.where]
+            dumps.append(d)
+            compared += 1
+        seams.UUID.reset()
+        for d in dumps:
+            diff = D.first_diff(dref, d)
+            if diff is not None:
+                res.add("ids", "C09.depends_on_default_ids", "the same model built with default (uuid4) worker/facility IDs gives a result that "
+                        "differs from the run with explicit IDs after renaming IDs by position, at %s: %r vs %r" % diff, None)
+                break
     elif mode == "plain":
         junk = [bytearray(n) for n in spec.get("garbage", [])]
         tr = one_run(spec, None, plain=True)
